@@ -1,5 +1,5 @@
 """C07: check configuration (PROP) and MANIFEST texts (TEXT)."""
-PROP = {'n_quick': 110,
+PROP = {'tables': ['C15'], 'n_quick': 110,
  'n_thorough': 3000,
  'audit': 4,
  'audit_maxlen': 1500,
